@@ -177,7 +177,7 @@ func (r *sessRun) run(n int, seed int64) {
 		// harness-side point of the application handler
 	} else {
 		r.g.Record(false)
-		r.g.RecordOnly("read.frame", "close.closed", "close.waitedCtx", "rd.loaded")
+		r.g.RecordOnly("read.frame", "read.spawn", "close.closed", "close.waitedCtx", "rd.loaded")
 		r.g.Jitter(seed*7919+int64(n), 3)
 		for _, h := range sc.Holds {
 			r.g.Hold(r.key(h))
